@@ -12,7 +12,7 @@ ID = "C02"
 META = {
     "technique": "runtime monitoring: conservation check over a recorded ledger — every EV.charge call logged by a class-level wrapper, per-period snapshots, final matrices, EV counters and battery charge (accessor and fresh JSON dump) reconciled per session and per step",
     "design_ref": "DESIGN.md section 6 C02",
-    "level_text": "exploration: generated simulations with heterogeneous voltages, all battery models incl. noise, scripted schedules that also address vacant stations, uncontrolled and sorted runs; each session's delivered energy is reconciled three ways (sum of recorded rates x V x dt, EV counter, battery charge gained), each charge call with the matrix entry of its station and period, vacant cells must be exactly zero, peak and total energy recomputed from the recorded matrix; default (infinite-maximum) EVSEs, zero-energy requests, verbose runs; the same EV objects re-used for a second simulation after reset(); charge calls grouped by (period, station), not counted",
+    "level_text": "exploration: generated simulations with heterogeneous voltages, all battery models incl. noise, scripted schedules that also address vacant stations, uncontrolled and sorted runs; each session's delivered energy is reconciled three ways (sum of recorded rates x V x dt, EV counter, battery charge gained), each charge call with the matrix entry of its station and period, vacant cells must be exactly zero, peak and total energy recomputed from the recorded matrix; default (infinite-maximum) EVSEs, zero-energy requests, verbose runs; the same EV objects re-used for a second simulation after reset(); charge calls grouped by (period, station), not counted; discharging schedules on bidirectional stations",
     "level_note": "station voltages are taken from the case descriptor, not from the network; battery charge is read through a tolerant accessor and once per EV through the public to_json dump; tolerance 1e-9 relative",
 }
 LEVEL = "exploration"
